@@ -6,15 +6,22 @@ which is how "the m-th selected element" is expressed without sequences:  result
 selected j with cnt(j) == m.  The counters are definitional (a conservative extension); every inductive fact about them that a proof needs
 (bounds, monotonicity) is carried by a loop invariant and therefore proved, not assumed.
 
-`Engine3` adds three small pieces of Python to pyvc.Engine (nothing else is changed):
-   x = a or []            value semantics of `or` on a list operand (the engine proper only knows `or` in conditions)
-   def f(): return <expr> a nested zero-argument function is inlined at its call sites (closure over the enclosing locals)
-   for x in <int list>    when the sidecar declares the loop variable unused-as-index, nothing extra; (plain engine feature)"""
+`Engine3` adds a few small pieces of Python to pyvc.Engine (nothing of the base engine is changed):
+   x = a or []                      value semantics of `or` on a list operand (the engine proper only knows `or` in conditions)
+   def f(): return <expr>           a nested zero-argument function is inlined at its call sites (closure over the enclosing locals)
+   dataclass constructor defaults   fields not passed to a declared constructor are None
+   allocating loop bodies           the loop rule with the allocation map havocked as well (loop_alloc)
+   len([x for x in L if c(x)])      filter comprehension over an int list, by its defining recursion (ghost counter)
+   r.extend(src[a:b])               with python slice normalisation
+   set(range(n)), set(<int list>), s -= t, s - t, list(s)     int sets as membership arrays (the base engine's representation); list(s) is an
+                                    ARBITRARILY ordered duplicate-free list of the members
+   induction(...)                   a lemma about a ghost counter proved by induction (two obligations: base, step), then used as a hypothesis"""
 import ast
 import z3
 from vlib.pyvc import *
 from vlib import pyvc
 
+SETF = '$dhas:int'       # membership array of an int set (the base engine's representation)
 def _loops_in_source_order(node):
     out = []
     def visit(n):
@@ -24,17 +31,20 @@ def _loops_in_source_order(node):
     visit(node); return out
 
 class Engine3(pyvc.Engine):
+    def __init__(self, fn, spec, mutate=None):
+        super().__init__(fn, spec, mutate)
+        # loop ordinals = source order of the `for` statements (depth first), whichever path reaches them first
+        self.loop_ids = {id(n): k for k, n in enumerate(_loops_in_source_order(self.node))}
     def loop(self, s, p):
-        # loop ordinals are keyed by the AST node (source order), so a loop reached on several paths keeps its sidecar invariant
-        if not hasattr(self, '_loop_ord'): self._loop_ord = {id(n): k for k, n in enumerate(_loops_in_source_order(self.node))}
-        self.loopk = self._loop_ord[id(s)]
+        self.loopk = self.loop_ids[id(s)]                       # (older engine versions number loops with this counter)
         if not getattr(self.spec, 'loops_may_allocate', False): return super().loop(s, p)
         return self.loop_alloc(s, p)
     def loop_alloc(self, s, p):
-        """pyvc.Engine.loop (same rule, same order of steps) for bodies that allocate: the allocation map is havocked together with the written heap fields
-        (objects created by earlier iterations are allocated in the arbitrary-iteration state; the sidecar invariant says which), and stays true for the
-        objects the sidecar lists in `roots` (allocated before the loop).  Only list iteration is needed here."""
-        k = self.loopk; self.loopk += 1
+        """The loop rule of pyvc.Engine.loop (same steps, same order) for bodies that ALLOCATE: the allocation map is havocked together with the
+        written heap fields (objects created by earlier iterations are allocated in the arbitrary-iteration state; the sidecar invariant says which)
+        and stays true for the objects the sidecar lists in `roots` (allocated before the loop).  Written fields are havocked as a whole (coarser than
+        the base engine's per-object havoc, hence sound).  Only iteration over a list is needed here."""
+        k = self.loop_ids[id(s)]; self.loopk = k + 1
         it = self.ev(s.iter, p)
         if k not in self.spec.invariants: raise Unsupported(f'loop {k}@{s.lineno} has no invariant (stale or missing contract)')
         inv = self.spec.invariants[k]
@@ -44,20 +54,28 @@ class Engine3(pyvc.Engine):
         pre = p.fork()
         for label, g in inv(self, Ctx('goal'), p, pre, z3.IntVal(0)): self.emit(p, f'loop{k}-entry:{label}', g, s.lineno)
         _, wn = self.written(s.body)
-        saved_rec, saved_k = set(pyvc.REC), self.loopk; pyvc.REC.clear(); self.mute += 1
-        try:
-            d = p.fork(); di = fresh(f'dry{k}', I); d.pc += [0 <= di, di < n]; bindf(d, di); self.block(s.body, d)
-        finally:
-            self.mute -= 1
-        wf = set(pyvc.REC); pyvc.REC.clear(); pyvc.REC.update(saved_rec | wf); self.loopk = saved_k
-        wf.discard('$alloc')
-        def havoc(q, tag):
-            q.heap.havoc(wf, f'L{k}{tag}')
-            q.heap.alloc = fresh(f'alloc_L{k}{tag}', z3.ArraySort(Ref, Bo))
-            q.pc += [q.heap.alloc[r] for r in self.spec.roots(self)]           # allocated before the loop, hence still allocated
-            for nme in wn:
+        def havoc_locals(q, tag):
+            for nme in wn:                      # locals assigned in the body hold arbitrary values in an arbitrary iteration
                 if nme in q.env and (q.env[nme].kind in ('int', 'bool', 'str', 'ref') or q.env[nme].kind.startswith('list[')):
                     q.env[nme] = V(q.env[nme].kind, fresh(f'{nme}_L{k}{tag}', sort_of(q.env[nme].kind)))
+        # write set of the body: dry symbolic run with obligations muted, recording every heap field written
+        rec_loc = getattr(pyvc, 'REC_LOC', None)
+        saved_rec = set(pyvc.REC); saved_loc = None if rec_loc is None else {a: list(b) for a, b in rec_loc.items()}
+        pyvc.REC.clear(); self.mute += 1
+        try:
+            d = p.fork(); di = fresh(f'dry{k}', I); d.pc += [0 <= di, di < n]; havoc_locals(d, 'dry'); bindf(d, di); self.block(s.body, d)
+        finally:
+            self.mute -= 1
+        wf = set(pyvc.REC); pyvc.REC.clear(); pyvc.REC.update(saved_rec | wf)
+        if rec_loc is not None:                 # whole-field effect as far as an enclosing loop is concerned
+            rec_loc.clear(); rec_loc.update(saved_loc)
+            for f in wf: rec_loc.setdefault(f, []).append(None)
+        wf.discard('$alloc')
+        def havoc(q, tag):
+            for f in wf: q.heap.f[f] = fresh('H_' + f + f'_L{k}{tag}', z3.ArraySort(Ref, q.heap.fsort(f)))
+            q.heap.alloc = fresh(f'alloc_L{k}{tag}', z3.ArraySort(Ref, Bo))
+            q.pc += [q.heap.alloc[r] for r in self.spec.roots(self)]           # allocated before the loop, hence still allocated
+            havoc_locals(q, tag)
         outs = []
         b = p.fork(); havoc(b, 'i'); i = fresh(f'i{k}', I); b.pc += [0 <= i, i < n]
         ch = Ctx('hyp')
@@ -75,6 +93,11 @@ class Engine3(pyvc.Engine):
         else: outs.append(Outcome('next', a))
         return outs
     def stmt(self, s, p):
+        # a -= <set>   (in place)
+        if isinstance(s, ast.AugAssign) and isinstance(s.op, ast.Sub) and isinstance(s.target, ast.Name) and s.target.id in p.env and p.env[s.target.id].kind == 'set[int]':
+            a = p.env[s.target.id]; b = self.ev(s.value, p)
+            if b.kind != 'set[int]': raise Unsupported('set -= ' + b.kind)
+            self.frame(p, a.term, SETF, s.lineno); p.heap.store(a.term, SETF, self.set_minus(p.heap.load(a.term, SETF), p.heap.load(b.term, SETF))); return [Outcome('next', p)]
         # nested zero-argument function: remembered, inlined at call sites
         if isinstance(s, ast.FunctionDef):
             body = [b for b in s.body if not (isinstance(b, ast.Expr) and isinstance(b.value, ast.Constant))]
@@ -97,7 +120,47 @@ class Engine3(pyvc.Engine):
         return super().stmt(s, p)
     def ev(self, e, p):
         if isinstance(e, ast.ListComp): return self.filter_comprehension(e, p)
+        if isinstance(e, ast.BinOp) and isinstance(e.op, ast.Sub) and isinstance(e.left, ast.Name) and isinstance(e.right, ast.Name) \
+           and e.left.id in p.env and p.env[e.left.id].kind == 'set[int]':                     # <set name> - <set name>: a new set
+            a, b2 = p.env[e.left.id], self.ev(e.right, p)
+            if b2.kind != 'set[int]': raise Unsupported('set difference with ' + b2.kind)
+            return self.new_set(p, self.set_minus(p.heap.load(a.term, SETF), p.heap.load(b2.term, SETF)))
         return super().ev(e, p)
+    @staticmethod
+    def sig(arr, p, r, fld):
+        """a fresh array constant standing for the content of heap slot fld[r] gets that slot's instantiation signature (both keyings of pyvc.ARR_SIG)"""
+        try: sg = pyvc._canon_arr(z3.Select(z3.Array('H_' + fld, Ref, arr.sort()), r))
+        except Exception: return
+        pyvc.ARR_SIG[arr.decl().name()] = sg; pyvc.ARR_SIG[arr.get_id()] = sg
+    @staticmethod
+    def set_minus(A, B):
+        x, y = z3.Bools('a b'); return z3.Map(z3.And(x, y).decl(), A, z3.Map(z3.Not(x).decl(), B))
+    def new_set(self, p, has):
+        r = p.heap.new(p, 'set'); p.heap.store(r, SETF, has)
+        if z3.is_const(has): self.sig(has, p, r, SETF)
+        return V('set[int]', r)
+    def set_of(self, src, p):
+        """set(range(..)) / set(<int list>): membership array defined pointwise (range) or by witness (list)"""
+        H = fresh('sethas', z3.ArraySort(I, Bo))
+        if src.kind == 'range':
+            lo, hi = src.kw['lo'], src.kw['hi']
+            p.facts.append(Schematic(1, lambda x: H[x] == And(lo <= x, x < hi), 'set(range)'))
+        elif src.kind == 'list[int]':
+            n = self.llen(src, p); it = self.litems(src, p); w = z3.Function(f'setw!{next(pyvc._n)}', I, I)
+            p.facts.append(Schematic(1, lambda k: Implies(And(0 <= k, k < n), H[it[k]]), 'set(list)-members'))
+            p.facts.append(Schematic(1, lambda x: Implies(H[x], And(0 <= w(x), w(x) < n, it[w(x)] == x)), 'set(list)-witness'))
+        else: raise Unsupported('set() of ' + src.kind)
+        return self.new_set(p, H)
+    def list_of_set(self, sv, p):
+        """list(<set>): a fresh duplicate-free list holding exactly the members, in an ARBITRARY order"""
+        has = p.heap.load(sv.term, SETF); r = p.heap.new(p, 'lst'); arr = fresh('setlist', z3.ArraySort(I, I)); n = fresh('setlist_len', I)
+        w = z3.Function(f'listw!{next(pyvc._n)}', I, I); p.pc.append(n >= 0)
+        p.facts.append(Schematic(1, lambda k: Implies(And(0 <= k, k < n), has[arr[k]]), 'list(set)-members'))
+        p.facts.append(Schematic(1, lambda x: Implies(has[x], And(0 <= w(x), w(x) < n, arr[w(x)] == x)), 'list(set)-witness'))
+        p.facts.append(Schematic(2, lambda k, j: Implies(And(0 <= k, k < j, j < n), arr[k] != arr[j]), 'list(set)-distinct'))
+        p.heap.store(r, '$items:int', arr); p.heap.store(r, '$len', n); self.sig(arr, p, r, '$items:int')
+        self.set_lists = getattr(self, 'set_lists', []) + [(r, w, has)]
+        return V('list[int]', r)
     def filter_comprehension(self, e, p):
         """[x for x in L if cond(x)] over an int list, by its definition: a fresh list r with len(r) == cnt(len L) where cnt(0) = 0,
         cnt(k+1) = cnt(k) + [cond(L[k])], and r[cnt(k)] == L[k] whenever cond(L[k]).  The sidecar may name the counter it uses for the same predicate
@@ -124,7 +187,7 @@ class Engine3(pyvc.Engine):
             p.facts.append(Schematic(1, lambda j: Implies(And(0 <= j, j < n), cnt(j + 1) == cnt(j) + If(pred(j), 1, 0)), f'ghost:cmp{k}-step'))
         r = p.heap.new(p, 'cmp'); arr = fresh('cmp_items', z3.ArraySort(I, I))
         p.facts.append(Schematic(1, lambda j: Implies(And(0 <= j, j < n, pred(j)), arr[cnt(j)] == it[j]), f'cmp{k}-items'))
-        p.heap.store(r, '$items:int', arr); p.heap.store(r, '$len', cnt(n)); self.comps[k] = (cnt, pred, n)
+        p.heap.store(r, '$items:int', arr); p.heap.store(r, '$len', cnt(n)); self.sig(arr, p, r, '$items:int'); self.comps[k] = (cnt, pred, n)
         return V('list[int]', r)
     def extend_slice(self, recv, sub, p, line):
         """recv.extend(src[a:b]) with python slice normalisation (None / negative / out-of-range bounds)"""
@@ -144,6 +207,13 @@ class Engine3(pyvc.Engine):
     def call(self, e, p):
         if isinstance(e.func, ast.Name) and e.func.id in p.env and p.env[e.func.id].kind == 'pyfunc' and not e.args and not e.keywords:
             return self.ev(p.env[e.func.id].kw['expr'], p)
+        if isinstance(e.func, ast.Name) and e.func.id == 'set' and len(e.args) == 1 and not e.keywords: return self.set_of(self.ev(e.args[0], p), p)
+        if isinstance(e.func, ast.Name) and e.func.id == 'list' and len(e.args) == 1 and not e.keywords and isinstance(e.args[0], ast.BinOp) and isinstance(e.args[0].op, ast.Sub):
+            a = self.ev(e.args[0], p)
+            if a.kind == 'set[int]': return self.list_of_set(a, p)
+            raise Unsupported('list() of ' + a.kind)
+        if isinstance(e.func, ast.Name) and e.func.id == 'list' and len(e.args) == 1 and isinstance(e.args[0], ast.Name) and e.args[0].id in p.env and p.env[e.args[0].id].kind == 'set[int]':
+            return self.list_of_set(p.env[e.args[0].id], p)
         if isinstance(e.func, ast.Attribute) and e.func.attr == 'extend' and len(e.args) == 1 and isinstance(e.args[0], ast.Subscript) and isinstance(e.args[0].slice, ast.Slice):
             recv = self.ev(e.func.value, p)
             if recv.kind.startswith('list['): self.extend_slice(recv, e.args[0], p, e.lineno); return NONE
@@ -178,6 +248,9 @@ def verify(rep, prop, fn, spec, timeout=60000, B=2, backend='z3-qf(typed-instant
             # the counter-model lives in the VC's vocabulary (heap snapshots, ghost counters); a concrete failing input is searched natively in the helper's small scope
             fb = fallback(ob.label) if fallback else None
             o.replay = fb if (fb and fb.get('confirmed')) else dict(confirmed=False, inputs=mv, note='bounded-scope counter-model of the VC; no failing input found natively in the small scope')
+            if getattr(spec, 'value_quantified_hypotheses', False) and not o.replay.get('confirmed'):
+                # set membership facts quantify over VALUES, which the bounded refuter only expands over a small domain: its model is not a counterexample
+                o.status = core.UNKNOWN; o.detail = 'not proved; the bounded-scope model is not trusted (hypotheses quantify over set members) and no failing input was found natively'; o.replay = None
         out.append(o); rep.add(o)
     return out
 
@@ -491,3 +564,67 @@ class MergeMaterialized(Spec):
         S = self; h = p.heap; r = ret.term; R = items_r(h, r)
         return [('one-entry-per-present-operand', ln(h, r) == S.NI + S.NO), ('aligned-inputs', self.in_part(ctx, R, S.NI)), ('aligned-outputs', self.out_part(ctx, R, S.NO)),
                 ('same-list-when-nothing-is-ignored', Implies(And(S.nII == 0, S.nIO == 0), r == S.tp))] + self.kept(h)
+
+# ------------------------------------------------------------------------------------------------ _add_non_match_tensors_to_ignored_lists
+class AddNonMatch(Spec):
+    """_add_non_match_tensors_to_ignored_lists(op, subgraph_tensors, dtypes_to_keep, inputs_to_ignore, outputs_to_ignore) -> (ri, ro):
+    ri is a duplicate-free list (arbitrary order) of exactly the positions x of op.inputs with  NOT keep(x)  or  x in inputs_to_ignore,
+    keep(x) = subgraph_tensors[op.inputs[x]].type in dtypes_to_keep (python indexing: a -1 operand looks at the last tensor); same for outputs.
+    _tensor_indices_with_dtype is used by its (proved) contract.   requires: operands are -1 or tensor indices; at least one tensor."""
+    fields = {'inputs': 'list[int]', 'outputs': 'list[int]', 'type': 'int'}
+    value_quantified_hypotheses = True
+    def __init__(self):
+        self.callees = {'_tensor_indices_with_dtype': self.k_tiwd}; self.calls = []
+    def bind(self, E, p):
+        h = p.heap; S = self; C = lambda n: z3.Const(n, Ref)
+        S.op, S.st, S.keep, S.ii, S.io = C('op'), C('subgraph_tensors'), C('dtypes_to_keep'), C('inputs_to_ignore'), C('outputs_to_ignore')
+        p.env.update(op=V('ref', S.op), subgraph_tensors=V('list[ref]', S.st), dtypes_to_keep=V('list[int]', S.keep), inputs_to_ignore=V('list[int]', S.ii), outputs_to_ignore=V('list[int]', S.io))
+        for f in list(self.fields) + ['$len', '$items:int', '$items:ref', SETF]: h.arr(f)
+        S.h0 = h.copy(); h0 = S.h0
+        S.inl, S.outl = h0.load(S.op, 'inputs'), h0.load(S.op, 'outputs')
+        objs = [S.op, S.st, S.keep, S.ii, S.io, S.inl, S.outl]; S.lens = [ln(h0, x) for x in objs[1:]]
+        p.pc += [z3.Distinct(*objs)] + [x != NULL for x in objs] + [h.alloc[x] for x in objs] + [l >= 0 for l in S.lens]
+        S.NT, S.nk = ln(h0, S.st), ln(h0, S.keep); S.ST0, S.K0 = items_r(h0, S.st), items_i(h0, S.keep)
+        p.pc.append(S.NT >= 1)
+        S.side = {}
+        for nme, lst, ign in (('in', S.inl, S.ii), ('out', S.outl, S.io)):
+            n = ln(h0, lst); T0 = items_i(h0, lst); X0 = items_i(h0, ign); ni = ln(h0, ign)
+            p.facts.append(Schematic(1, lambda k, n=n, T0=T0: Implies(And(0 <= k, k < n), And(-1 <= T0[k], T0[k] < S.NT)), f'req:{nme}-operands-are--1-or-tensor-indices'))
+            ty = lambda k, T0=T0: h0.load(S.ST0[If(T0[k] < 0, T0[k] + S.NT, T0[k])], 'type')
+            sel = z3.Function(f'keep_{nme}', I, Bo); sw = z3.Function(f'keep_{nme}_w', I, I); ig = z3.Function(f'ign_{nme}', I, Bo); igw = z3.Function(f'ign_{nme}_w', I, I)
+            p.facts.append(Schematic(1, lambda k, n=n, sel=sel, sw=sw, ty=ty: Implies(And(0 <= k, k < n, sel(k)), And(0 <= sw(k), sw(k) < S.nk, S.K0[sw(k)] == ty(k))), f'ghost:keep_{nme}-def1'))
+            p.facts.append(Schematic(2, lambda k, j, n=n, sel=sel, ty=ty: Implies(And(0 <= k, k < n, 0 <= j, j < S.nk, S.K0[j] == ty(k)), sel(k)), f'ghost:keep_{nme}-def2'))
+            p.facts.append(Schematic(1, lambda x, ig=ig, igw=igw, ni=ni, X0=X0: Implies(ig(x), And(0 <= igw(x), igw(x) < ni, X0[igw(x)] == x)), f'ghost:ign_{nme}-def1'))
+            p.facts.append(Schematic(1, lambda j, ig=ig, ni=ni, X0=X0: Implies(And(0 <= j, j < ni), ig(X0[j])), f'ghost:ign_{nme}-def2'))
+            S.side[nme] = dict(n=n, sel=sel, ign=ig, lst=lst, T0=T0)
+    def bounds(self, E): return self.lens
+    def may_write(self, E, p, ref, field): return z3.BoolVal(False)
+    def k_tiwd(self, E, p, args, kw, node):
+        """callee by contract (TensorIndicesWithDtype): requires entries index subgraph_tensors; returns a fresh list R of positions with
+        R[m] in range and selected, and every selected position listed at index rank(j) < len(R)"""
+        S = self; tensors, sts, codes = args; h = p.heap
+        side = next((d for d in S.side.values() if True), None)
+        nme = 'in' if len(S.calls) == 0 else 'out'; d = S.side[nme]; S.calls.append(nme)
+        sk = fresh('pre_k', I)
+        E.emit(p, f'pre:_tensor_indices_with_dtype.arguments-are-the-{nme}put-list-and-tables@{node.lineno}', And(tensors.term == d['lst'], sts.term == S.st, codes.term == S.keep), node.lineno)
+        E.emit(p, f'pre:_tensor_indices_with_dtype.entries-index-subgraph_tensors@{node.lineno}', Implies(And(0 <= sk, sk < d['n']), And(-S.NT <= d['T0'][sk], d['T0'][sk] < S.NT)), node.lineno)
+        p.pc += [tensors.term == d['lst'], sts.term == S.st, codes.term == S.keep]
+        r = p.heap.new(p, 'tiwd'); R = fresh('tiwd_items', z3.ArraySort(I, I)); nr = fresh('tiwd_len', I); rank = z3.Function(f'rank_{nme}', I, I)
+        p.pc.append(nr >= 0)
+        p.facts.append(Schematic(1, lambda m: Implies(And(0 <= m, m < nr), And(0 <= R[m], R[m] < d['n'], d['sel'](R[m]))), f'post:tiwd-{nme}-entries'))
+        p.facts.append(Schematic(1, lambda j: Implies(And(0 <= j, j < d['n'], d['sel'](j)), And(0 <= rank(j), rank(j) < nr, R[rank(j)] == j)), f'post:tiwd-{nme}-complete'))
+        h.store(r, '$items:int', R); h.store(r, '$len', nr); E.sig(R, p, r, '$items:int')
+        return V('list[int]', r)
+    def ensures(self, E, ctx, p, ret):
+        S = self; h = p.heap; out = []
+        for (nme, v) in zip(('in', 'out'), ret.kw['elts']):
+            d = S.side[nme]; r = v.term; R = items_i(h, r); nr = ln(h, r)
+            w = next((w_ for (r_, w_, has_) in getattr(E, 'set_lists', []) if r_.eq(r)), z3.Function(f'no_witness_{nme}', I, I))      # the witness of list(<set>) when the result is one
+            want = lambda x, d=d: Or(Not(d['sel'](x)), d['ign'](x))
+            out += [(f'{nme}puts:result-fresh', Not(S.h0.alloc[r])),
+                    (f'{nme}puts:every-entry-is-a-position-that-is-not-kept-or-was-ignored', ctx.forall(1, lambda k, R=R, nr=nr, d=d, want=want: Implies(And(0 <= k, k < nr), And(0 <= R[k], R[k] < d['n'], want(R[k]))))),
+                    (f'{nme}puts:every-such-position-is-listed', ctx.forall(1, lambda x, R=R, nr=nr, d=d, want=want, w=w: Implies(And(0 <= x, x < d['n'], want(x)), And(0 <= w(x), w(x) < nr, R[w(x)] == x)))),
+                    (f'{nme}puts:no-duplicates', ctx.forall(2, lambda k, j, R=R, nr=nr: Implies(And(0 <= k, k < j, j < nr), R[k] != R[j])))]
+        out.append(('arguments-kept', And(*[ln(h, x) == l for x, l in zip((S.st, S.keep, S.ii, S.io, S.inl, S.outl), S.lens)], items_i(h, S.ii) == items_i(S.h0, S.ii), items_i(h, S.io) == items_i(S.h0, S.io),
+                                            items_i(h, S.inl) == items_i(S.h0, S.inl), items_i(h, S.outl) == items_i(S.h0, S.outl))))
+        return out
